@@ -7,7 +7,7 @@ use super::{
 };
 use crate::{
     error::{WriterError, WriterResult},
-    model::{Namespace, field::resolve_type, node::RustNode},
+    model::{Namespace, field::resolve_type, node::RustNode, structures::RustType},
     reader::{WELL_KNOWN_NAMESPACES, WriteXml},
 };
 use roxmltree::{Document, Node};
@@ -186,11 +186,14 @@ impl RustDocument {
         start_node: &Node<'n, 'n>,
         xml_name: &str,
         namespace: Option<&Namespace>,
+        wanted: Wanted,
     ) -> Option<Rc<RustNode>> {
         #[cfg(feature = "verif")]
         let mut verif_guard = crate::verif::LookupGuard::start(xml_name, namespace);
         let rust_node = self.nodes.iter().find(|node| {
-            node.rust_type.xml_name().is_some_and(|n| n == xml_name) && node.in_namespace.as_deref() == namespace
+            node.rust_type.xml_name().is_some_and(|n| n == xml_name)
+                && node.in_namespace.as_deref() == namespace
+                && wanted.accepts(&node.rust_type)
         });
 
         if let Some(rust_node) = rust_node {
@@ -199,7 +202,7 @@ impl RustDocument {
             return Some(rust_node.clone());
         }
 
-        let alt_node = try_to_find_node_by_xml_name_in_xml_doc(start_node, xml_name, namespace, self).ok()?;
+        let alt_node = try_to_find_node_by_xml_name_in_xml_doc(start_node, xml_name, namespace, self, wanted).ok()?;
         #[cfg(feature = "verif")]
         verif_guard.hit("tree", &alt_node);
         Some(alt_node.into())
@@ -215,6 +218,36 @@ impl RustDocument {
 
     pub fn find_binding_by_xml_name(&self, xml_name: &str, _namespace: Option<&Namespace>) -> Option<&Rc<SoapBinding>> {
         self.soap_bindings.iter().find(|port| port.name == xml_name)
+    }
+}
+
+/// The kind of global component a reference is looking for. A type and a global element (or a local
+/// element, an attribute, a message part ...) may carry the same name; a reference only ever denotes a
+/// component of its own kind.
+#[derive(Clone, Copy, PartialEq, Debug)]
+pub enum Wanted {
+    /// a complex type, simple type or group (`base`, `type`, group `ref`)
+    Type,
+    /// a global element (element `ref`, message part `element`)
+    Element,
+}
+
+impl Wanted {
+    fn accepts(self, rust_type: &RustType) -> bool {
+        match self {
+            Wanted::Type => matches!(rust_type, RustType::Complex(_) | RustType::Simple(_)),
+            Wanted::Element => matches!(rust_type, RustType::Element(_)),
+        }
+    }
+
+    fn accepts_tag(self, node: &Node) -> bool {
+        let is_global = node
+            .parent()
+            .is_some_and(|p| p.is_element() && p.tag_name().name() == "schema");
+        match self {
+            Wanted::Type => is_global && matches!(node.tag_name().name(), "complexType" | "simpleType" | "group"),
+            Wanted::Element => is_global && node.tag_name().name() == "element",
+        }
     }
 }
 
@@ -235,6 +268,7 @@ fn try_to_find_node_by_xml_name_in_xml_doc<'n>(
     xml_name: &str,
     _namespace: Option<&Namespace>,
     doc: &mut RustDocument,
+    wanted: Wanted,
 ) -> WriterResult<RustNode> {
     // get to the root of the document from the start node
     let mut start_node = *start_node;
@@ -244,7 +278,7 @@ fn try_to_find_node_by_xml_name_in_xml_doc<'n>(
 
     // iterate over all subsequent nodes in the XML tree to find the node with the given name
     for node in start_node.descendants() {
-        if node.is_element() {
+        if node.is_element() && wanted.accepts_tag(&node) {
             // do a quick check on the name of the node, so we can skip the more expensive try_from_node
             if let Some(node_name) = node.attribute("name") {
                 let (node_name, _node_namespace) = resolve_type(node_name, doc);
